@@ -333,8 +333,8 @@ pub fn property() -> Property {
         subs: vec![prop_sub(
             "chain",
             "1..4 sequential requests (C01/C02-style preambles, bodies, noise) on one byte string through request->stream->request... conversions with one shared buffer (24 bytes upward); per request a reader that reads everything following a generated schedule or abandons the request after 0..n bytes; per-phase chunkings so that 0..buffer bytes of look-ahead are carried over, ending mid-header/payload/padding; non-trivial = >=2 requests and >=1 hand-off carrying look-ahead; distinct = hash of the case",
-            3_000,
-            150_000,
+            30_000,
+            800_000,
             |_| case_strategy(),
             test,
         )],
